@@ -44,8 +44,8 @@ CHECKS = {
          "For each package content: every single-character deletion / substitution / insertion over a 110-symbol alphabet at every offset, every truncation point, structural edits with the old checksum (scalar +-1, enum flips, order swap / drop / duplicate / retype / append, version, every checksum nibble, dropped members), a re-checksummed package under an unsupported version, and sampled fault pairs; a restore may only succeed with exactly the original content, the supported version and the content's own checksum (judged on the library's view AND on the harness's own reading of the accepted text).",
          "Contents are generated (all order types, both id formats, boundary values, history-reached levels); multi-fault combinations beyond pairs are not enumerated.", "4/C09"),
  "C03": ("E1 (+E2)", "exploration", "controlled-schedule execution (baton scheduler on hooked shared-memory operations) + offline per-order linearizability check of the client-boundary history against an executable per-order model",
-         "Tens of thousands of (program, schedule) pairs per run: real threads, one shared-memory step at a time, rw / PCT / complete one-preemption sweeps; at quiescence aggregates must equal sums, and for every order id some ordering of the successful operations (consistent with real time) must be explained by the statement's per-order machine and end in the listed state; the same checker over free-running E2 executions.",
-         "Schedules are sampled (complete only for one-preemption schedules of the swept programs); E1 is sequentially consistent at hook granularity; through-the-level iceberg tranche = documented size.", "4/C03"),
+         "Tens of thousands of (program, schedule) pairs per run: real threads, one shared-memory step at a time, rw / PCT / starvation / complete one-preemption sweeps, plus EVERY schedule with at most 2 (quick) / 4 (thorough) preemptions of a pool of ~290 tiny programs; at quiescence aggregates must equal sums, and for every order id some ordering of the successful operations (consistent with real time) must be explained by the statement's per-order machine and end in the listed state; the same checker over free-running E2 executions.",
+         "Schedules are sampled, except the bounded-preemption enumeration over the tiny-program pool and the one-preemption sweeps; E1 is sequentially consistent at hook granularity; through-the-level iceberg tranche = documented size.", "4/C03"),
  "C08": ("E1 (+E2)", "exploration", "controlled-schedule execution + drain oracle at quiescence; exactly-once ledger over unique orders for the bare queue",
          "After every scheduled execution a draining match must execute exactly what each listed order can still trade and leave nothing displayed; queue programs (push / pop / remove / find / pop+re-push) are checked with an exactly-once ledger after a final pop-until-empty; plus a 16-thread free-running hammer of the queue.",
          "Schedules sampled; E1 treats each map / queue call as one step (E2 looks inside).", "4/C08"),
@@ -53,8 +53,8 @@ CHECKS = {
          "After EVERY step of every scheduled execution the three aggregates are read with the world stopped and compared with what calls that have started have submitted (bounds raised at the client boundary before the call); E2 adds polling readers against the program's total supply.",
          "Granularity = hooked operations (the property's own); E2 polling can miss nanosecond transients.", "4/C12"),
  "C13": ("E1 (+E2)", "exploration", "interval reasoning over the client-boundary history, with the hook event log used only to attribute known finding K4",
-         "Every not-found reply of a cancel / amend on an order that rested before the call and was not removed is a violation unless the failed lookup lies inside another thread's hold interval (K4); a successful cancel must never be followed by a trade, a second hand-out or a listing of that order.",
-         "Schedules sampled; attribution needs the hook event log (E1 only); E2 judges the 'successful cancel is final' half.", "4/C13"),
+         "Every not-found reply of a cancel / move / amend on an order that rested before the call and was not removed is a violation unless the failed lookup lies inside another thread's hold interval (K4; exact through the hook event log in E1, through before/after-stamped map events in E2); a successful cancel must never be followed by a trade, a second hand-out or a listing of that order.",
+         "Schedules sampled (plus bounded enumeration); the long exchange run uses a conservative overlap rule.", "4/C13"),
  "C14": ("E1 (+E2)", "exploration", "controlled-schedule execution of concurrent next() calls + set / sequence comparison with a sequential generator",
          "2-4 threads x 1-5 calls under the scheduler with the counter as a hooked atomic (a split read-modify-write gets a scheduling point between its halves); all ids distinct and equal to a sequential generator's set; 16 free-running threads x 60k calls.",
          "Schedules sampled; namespaces nil / max / random.", "4/C14"),
